@@ -1,6 +1,7 @@
 //! svh: searchlite verification harness. Drives the real code and records what it did; all
 //! verdicts are produced by TLC on the specifications in /verif/spec.
 mod adhoc;
+mod aggs;
 mod conc;
 mod corpus;
 mod qgen;
@@ -35,6 +36,7 @@ fn main() {
     "conc" => conc::main(&args),
     "search" => search::main(&args),
     "extras" => extras::main(&args),
+    "aggs" => aggs::main(&args),
     "http" => http::main(&args),
     "ffi" => ffi::main(&args),
     "frontends" => frontends::main(&args),
